@@ -549,6 +549,34 @@ def h_state_space(c):
     return out
 
 
+def h_data_scs(c):
+    """lcm.simulate.create_data_scs on a processed model; also reports the inputs it read off the model (variable_info, grids,
+    the signature of the concatenated filter) so that the regenerated create_data_scs runs on the same inputs"""
+    import inspect
+    from dags import concatenate_functions
+    from lcm.input_processing import process_model
+    from lcm.simulate import create_data_scs
+    mod = process_model(_build_model(c))
+    states = {k: jnp.asarray(np.array([fq(x) for x in v], dtype=float)) for k, v in c["states"]}
+    scs, seg = create_data_scs(states=states, model=mod, period=c["period"])
+    vi = mod.variable_info
+    cols = ["is_state", "is_choice", "is_continuous", "is_discrete", "is_stochastic", "is_auxiliary", "is_sparse", "is_dense"]
+    filter_names = mod.function_info.query("is_filter").index.tolist()
+    sig = []
+    if filter_names:
+        sf = concatenate_functions(functions=mod.functions, targets=filter_names, aggregator=jnp.logical_and)
+        sig = list(inspect.signature(sf).parameters)
+    out = {"sparse_names": list(scs.sparse_vars), "dense_names": list(scs.dense_vars),
+           "sparse_vars": [[to_wire(x) for x in np.asarray(v).tolist()] for v in scs.sparse_vars.values()],
+           "dense_vars": [[to_wire(x) for x in np.asarray(v).tolist()] for v in scs.dense_vars.values()],
+           "segment_ids": None if seg is None else [int(x) for x in np.asarray(seg["segment_ids"])],
+           "num_segments": None if seg is None else int(seg["num_segments"]),
+           "inputs": {"variable_info": [[str(n), [bool(vi.loc[n, k]) for k in cols]] for n in vi.index],
+                      "grids": [[str(k), [to_wire(x) for x in np.asarray(v).tolist()]] for k, v in mod.grids.items()],
+                      "sig": sig}}
+    return out
+
+
 # ---- C14 ---------------------------------------------------------------------------------
 def _disc_grid(n, name="C"):
     from dataclasses import make_dataclass, field
